@@ -209,6 +209,9 @@ def run(ctx):
         for f in f_mc_tpl:
             f.result()
         f_mc_rest.result()
+        if rl.NOT_OBSERVABLE:
+            ctx.extra["not_observable"] = dict(rl.NOT_OBSERVABLE)
+            ctx.assume("reduced coverage: underscore names %s are not present in this version of lena" % sorted(rl.NOT_OBSERVABLE))
         ctx.extra["scenarios"] = {"templates_exported": len(trecs), "other_exported": len(recs),
                                   "classes_with_violations": sorted(rp.bad_classes)}
     finally:
